@@ -260,6 +260,8 @@ class RefServer:
             cfg = self.cluster_config
             if cfg is None or cfg == "ERROR":
                 return b"ERROR\r\n", False
+            if isinstance(cfg, bytes):
+                return cfg, False           # a scripted (e.g. empty or garbled) answer
             ver, nodes = cfg
             body = b"%d\n" % ver + b" ".join(b"%s|%s|%d" % (h.encode(), ip.encode(), p) for h, ip, p in nodes) + b"\n"
             return b"CONFIG cluster 0 %d\r\n" % len(body) + body + b"\r\nEND\r\n", False
